@@ -262,6 +262,48 @@ func (u *Unit) execStmt(st *State, s ast.Stmt) flow {
 			}
 			return flow{normal: outs}
 		}
+		if (x.Tok == token.ASSIGN || x.Tok == token.DEFINE) && len(x.Rhs) == 1 {
+			// x, y := f(...) with an inlinable f that returns on several paths: continue path by path (no merge)
+			if call, ok := ast.Unparen(x.Rhs[0]).(*ast.CallExpr); ok {
+				simple := true
+				for _, l := range x.Lhs {
+					if _, isId := l.(*ast.Ident); !isId {
+						simple = false // evaluation order of composite left-hand sides: keep the merged route
+					}
+				}
+				if simple {
+					base := st.fork()
+					work := st.fork()
+					if rets, ok := u.inlinePaths(work, call); ok {
+						fn := u.calleeFunc(call)
+						sig := fn.Type().(*types.Signature)
+						if v, merged := u.mergeRets(st, base, rets, sig, fn.Name()); merged {
+							vals := []Val{v}
+							if v.Kind == KTuple {
+								vals = v.Elems
+							}
+							for i, l := range x.Lhs {
+								if i < len(vals) {
+									u.assignTok(st, l, vals[i], x.Tok)
+								}
+							}
+							return u.alive(st)
+						}
+						// the return states cannot be merged (quantified facts, diverging heaps): go on path by path
+						var outs []*State
+						for _, r := range rets {
+							for i, l := range x.Lhs {
+								if i < len(r.vals) {
+									u.assignTok(r.st, l, r.vals[i], x.Tok)
+								}
+							}
+							outs = append(outs, u.alive(r.st).normal...)
+						}
+						return flow{normal: outs}
+					}
+				}
+			}
+		}
 		u.execAssign(st, x)
 		return u.alive(st)
 	case *ast.IncDecStmt:
@@ -1773,9 +1815,20 @@ func (u *Unit) inlineBody(st *State, ft *ast.FuncType, body *ast.BlockStmt, recv
 	base := st.fork()
 	work := st.fork()
 	rets := u.inlineBodyStates(work, ft, body, recvList, recv, args, sig)
+	v, ok := u.mergeRets(st, base, rets, sig, name)
+	if !ok {
+		u.reject("cannot merge return states of inlined %s", name)
+		return u.havocResults(st, sig, name)
+	}
+	return v
+}
+
+// mergeRets merges the return states of an inlined callee into st (results become ite terms over the path
+// conditions); ok=false when the states cannot be merged (st is then untouched).
+func (u *Unit) mergeRets(st, base *State, rets []retState, sig *types.Signature, name string) (Val, bool) {
 	if len(rets) == 0 {
 		st.assume("false")
-		return u.havocResults(st, sig, name)
+		return u.havocResults(st, sig, name), true
 	}
 	var sts []*State
 	for _, r := range rets {
@@ -1788,8 +1841,7 @@ func (u *Unit) inlineBody(st *State, ft *ast.FuncType, body *ast.BlockStmt, recv
 		m = u.merge(base, sts)
 	}
 	if m == nil {
-		u.reject("cannot merge return states of inlined %s", name)
-		return u.havocResults(st, sig, name)
+		return Val{}, false
 	}
 	// results: ite over path conditions
 	n := sig.Results().Len()
@@ -1808,8 +1860,7 @@ func (u *Unit) inlineBody(st *State, ft *ast.FuncType, body *ast.BlockStmt, recv
 			for i := len(rets) - 2; i >= 0; i-- {
 				ci, _ := rets[i].vals[k].components()
 				if len(ci) != len(acc) {
-					u.reject("result shape mismatch in inlined %s", name)
-					return u.havocResults(st, sig, name)
+					return Val{}, false
 				}
 				for j := range acc {
 					acc[j] = tIte(conds[i], ci[j], acc[j])
@@ -1821,11 +1872,11 @@ func (u *Unit) inlineBody(st *State, ft *ast.FuncType, body *ast.BlockStmt, recv
 	*st = *m
 	switch n {
 	case 0:
-		return Val{Kind: KTuple}
+		return Val{Kind: KTuple}, true
 	case 1:
-		return res[0]
+		return res[0], true
 	}
-	return Val{Kind: KTuple, T: sig.Results(), Elems: res}
+	return Val{Kind: KTuple, T: sig.Results(), Elems: res}, true
 }
 
 
